@@ -10,9 +10,21 @@ CLAIMS = json.load(open(os.path.join(os.path.dirname(__file__), 'claims.json')))
 NA = json.load(open(os.path.join(os.path.dirname(__file__), 'not_applicable.json')))
 HOOKS = json.load(open(os.path.join(os.path.dirname(__file__), 'hooks.json')))
 
+import re
+def rule_ids(pid):
+    try:
+        e = json.load(open(f'/verif/evidence/{pid}.json'))
+        ids = sorted(set(re.findall(r'(C\d\d\.[a-z]):', e['coverage']['explanation'])))
+        return ids
+    except Exception:
+        return []
+
 checks = []
 for pid in sorted(CLAIMS):
-    c = CLAIMS[pid]
+    c = dict(CLAIMS[pid])
+    ids = rule_ids(pid)
+    if ids:
+        c["text"] = c["text"] + " Rules decided on every run: " + ", ".join(ids) + " (each stated in /verif/evidence/" + pid + ".json; rules added after the seeding rounds: DESIGN.md 8.9, 8.11, 8.12). A VIOLATION needs a positive witness; an anchor that cannot be resolved makes the check UNDECIDED (exit 3)."
     checks.append({
         "property_id": pid,
         "quick_cmd": f"/verif/bin/fsdbcheck -prop {pid} -tier quick",
